@@ -13,7 +13,7 @@ func Table() map[string]*Property {
 	fsGhost := []vc.GhostVar{{Name: "fs", Type: "map[string]string"}, {Name: "foff", Type: "map[*os.File]int"}, {Name: "handledBy", Type: "Generator"}, {Name: "synced", Type: "bool"}, {Name: "prefixesFrozen", Type: "bool"}, {Name: "renamedUnsaved", Type: "bool"}}
 
 	// the same ghost state, with types that resolve in package main
-	mainGhost := []vc.GhostVar{{Name: "fs", Type: "map[string]string"}, {Name: "foff", Type: "map[string]int"}, {Name: "handledBy", Type: "derive.Generator"}, {Name: "synced", Type: "bool"}, {Name: "prefixesFrozen", Type: "bool"}, {Name: "renamedUnsaved", Type: "bool"}}
+	mainGhost := []vc.GhostVar{{Name: "fs", Type: "map[string]string"}, {Name: "foff", Type: "map[string]int"}, {Name: "handledBy", Type: "derive.Generator"}, {Name: "synced", Type: "bool"}, {Name: "prefixesFrozen", Type: "bool"}, {Name: "renamedUnsaved", Type: "bool"}, {Name: "runFailed", Type: "bool"}}
 
 	add(&Property{
 		ID: "C11",
@@ -28,6 +28,7 @@ func Table() map[string]*Property {
 			"A-int: machine integers are mathematical integers",
 			"EqIsEquivalence: assignability (derive.eq) is reflexive, symmetric and transitive on the argument type lists involved (the property quantifies over pairwise non-assignable types)",
 			"function values stored in fields (tm.qual) do not write typesMap state",
+			"the two flags are followed from the command line to every type table (main.main, NewPlugins, plugins.Load, generatePackage, newPackage, newTypesMap: each hand-over keeps each flag in its own place); that a plugin's constructor hands the type table it was given to its generator (Plugin.New) is an assumed contract",
 			"termination of newName's search and of the mutual recursion SetFuncName/GetFuncName is argued on paper",
 		},
 		Trusted: []string{"go/types: AssignableTo, Default, TypeString, Named.Obj, object.Pkg/Name, Basic.Kind (uninterpreted, pure)",
@@ -72,7 +73,9 @@ func Table() map[string]*Property {
 	})
 	add(&Property{
 		ID: "C12",
-		Groups: []Group{{Layer: "D", Pkg: "derive", Ghost: fsGhost, Funcs: []string{"derive.sortPlugins", "derive.pkg.Add", "derive.NewPlugins", "derive.plugins.Load"}},
+		Groups: []Group{{Layer: "D", Pkg: "derive", Ghost: fsGhost, Funcs: []string{"derive.sortPlugins", "derive.pkg.Add", "derive.NewPlugins", "derive.plugins.Load",
+			// the sorted collection is handed over unchanged down to the package that dispatches the calls
+			"derive.program.Generate", "derive.program.generatePackage", "derive.newPackage"}},
 			{Layer: "D", Pkg: "main", Ghost: mainGhost, Funcs: []string{"main.main"}}},
 		Assumptions: []string{
 			"string lemmas: hasPrefix(s,p) ==> len(p) <= len(s); byte-wise string order is a strict total order",
@@ -242,6 +245,8 @@ func Table() map[string]*Property {
 				"derive.printer.NewImport_lit1", "derive.printer.WriteTo",
 				// the built-in contract of Printer.P / In / Out / HasContent that Layer G evaluates the plugins with, against the bodies
 				"derive.printer.P", "derive.printer.In", "derive.printer.Out", "derive.printer.HasContent"}},
+			// the driver between the call sites and the file: the name a call site gets is the one its plugin registered, and the file is written whenever there is content
+			{Layer: "D", Pkg: "derive", Ghost: fsGhost, Funcs: []string{"derive.pkg.Add", "derive.newPackage", "derive.program.generatePackage", "derive.program.Generate", "derive.pkg.Print", "derive.pkg.Delete", "derive.pkg.Filename"}},
 			{Layer: "O", NoVC: true, Funcs: c01, Only: textLevel},
 		},
 		Assumptions: []string{
@@ -265,10 +270,13 @@ func Table() map[string]*Property {
 				// first matching plugin only; pkg.Generate returns successfully only with every work list empty)
 				"derive.pkg.Add", "derive.pkg.Done", "derive.pkg.Generate", "derive.newPackage", "derive.program.generatePackage", "derive.program.Generate",
 				// Out's panic ("unindenting more than has been indented") is the one Layer G counts as a generator panic
-				"derive.printer.P", "derive.printer.In", "derive.printer.Out", "derive.printer.HasContent"}}},
+				"derive.printer.P", "derive.printer.In", "derive.printer.Out", "derive.printer.HasContent"}},
+			// a reported failure reaches the exit status (ghost history variable runFailed)
+			{Layer: "D", Pkg: "main", Ghost: mainGhost, Funcs: []string{"main.main"}}},
 		Assumptions: []string{
 			"PARTIAL. Decided: on every path of every plugin's Add (33 plugins, argument lists of 0..3 types of every kind, incl. tuple types) and of the generator functions listed, the generator code does not panic (index, type assertion, nil, Tuple.At), an error created on the path reaches the function's result (G2), callee preconditions hold (G1), indentation is balanced (G3), and on every non-error path the emitted text parses (G4), keeps its operand holes intact and type-checks under the prelude synthesised from the path condition",
-			"NOT decided here: termination / hangs; the content of the messages; derive/load.go and flag handling in main.go (go/packages); of derive/find.go only newFileInfos, finder.Visit, newCall and getInputTypes are under contract (no panic, given that go/types stores no nil object in Info.Uses and the loader no nil file); pkg.Generate's 'Generator Error' wrapping (Layer D covers generate.go's file effects under C07/C10 only); Generate of gostring and do; for clone, deepcopy, dup, pipeline, curry, flip, uncurry, toerror, fmap, join, equal, compare, hash, tuple, traverse, mem the inner emitting functions are explored themselves with the domain their contracts state (e.g. three channels for join's variant form), not only through the Generate dispatch",
+			"Decided at Layer D (driver): pkg.Add, pkg.Generate, generatePackage, program.Generate return an error whenever a step they called reported one (local history variable stepFailed), main.main returns normally only if neither Load nor Generate failed (history variable runFailed; log.Fatal does not return), generatePackage succeeds only if the package as last analysed has no derive call left whose argument types could not be determined (history variable callsLeft; the defect repaired by ec522ae), Printer.P/In/Out/HasContent implement the built-in contract Layer G evaluates the plugins with. Trusted for these: types.ExprString never returns the empty string, strings.Join's result begins with its first element, sort.Strings permutes, fmt.Fprintf and log.* write nothing the contracts talk about",
+			"NOT decided here: termination / hangs; the content of the messages; derive/load.go (go/packages); of derive/find.go only newFileInfos, finder.Visit, newCall and getInputTypes are under contract (no panic, given that go/types stores no nil object in Info.Uses and the loader no nil file); newPackage's own error propagation (its file effects and registration order are under contract, C07/C10); Generate of gostring and do; for clone, deepcopy, dup, pipeline, curry, flip, uncurry, toerror, fmap, join, equal, compare, hash, tuple, traverse, mem the inner emitting functions are explored themselves with the domain their contracts state (e.g. three channels for join's variant form), not only through the Generate dispatch",
 			"that Generate is only called with type lists its Add accepted or another plugin requested through GetFuncName is an assumption",
 			"A-cfg, A-param; arities enumerated up to 3",
 		},
